@@ -157,6 +157,18 @@ pub fn run(seed: u64, size: usize) -> RunOutcome {
         p2.extend(pool);
         pool = p2;
     }
+    if r.chance(1, 3) {
+        // names around one short base: the plain form, forms whose alias is the base plus a numeric tail, and forms
+        // that are different names with the same 8.3 image (trailing dots); they go first so that they meet early
+        let b: String = match r.below(3) {
+            0 => "x".into(),
+            1 => pre[..3].to_string(),
+            _ => "data".into(),
+        };
+        let mut fam = vec![b.clone(), format!(".{}", b), format!("{}.", b), format!("{}~1", b), format!("{}~2", b), format!("{}..", b), format!(".{}.", b), format!("{} ", b), format!("{}.{}", b, "e"), format!("{}.e.", b)];
+        fam.extend(pool);
+        pool = fam;
+    }
     for i in 0..size / 4 {
         // short basenames (prefix shorter than 6 / 2), lossy characters, dots and spaces, non-ASCII
         pool.push(match i % 8 {
